@@ -1,11 +1,103 @@
-(* Props/C17.v — Gob encoding (theorems to follow). *)
-From Coq Require Import ZArith.
-From Dec Require Import L3.Decimal L3.Arith L4.Gob.
+(* Props/C17.v — Gob encoding round-trips value and all attributes; decoding
+   arbitrary bytes is total and never yields a non-canonical value.
+   Statements only (proofs in L4/GobProofs.v, model in L4/Gob.v).
+   `WF` = canonical form (L3/Decimal.v); `oeq` = observational equality (class,
+   sign, precision, mode, accuracy, and for finite values exponent and mantissa
+   words up to low zero words); `result_spec p m ng v z'` = z' is v correctly
+   rounded once to p digits under mode m (Spec/Rounding.v). *)
+From Coq Require Import ZArith List QArith.
+From Dec Require Import Base.Words L3.Decimal L3.Round L3.Arith Spec.Rounding L3.IndepProofs L4.Gob L4.GobProofs.
 Open Scope Z_scope.
+
+(* Decoding the encoding of any canonical x into a fresh Decimal succeeds and
+   gives back x: same class, sign, precision, mode and accuracy; for a finite x
+   the same exponent and the same mantissa except that low zero words beyond
+   ceil(prec/19) words are not transmitted (so the magnitude is identical), and
+   exactly x when its mantissa has at most ceil(prec/19) words.  No hypothesis
+   besides WF x is needed. *)
+Theorem C17_roundtrip : forall x, WF x ->
+  exists x', GobDecode dec_zero (GobEncode x) = GobOk x' /\ WF x' /\ oeq x x' /\
+    dform x' = dform x /\ neg x' = neg x /\ prec x' = prec x /\ dmode x' = dmode x /\ acc x' = acc x /\
+    (dform x = Ffinite ->
+       exp x' = exp x /\ (exists k, mant x = repeat 0 k ++ mant x') /\ (mag x' == mag x)%Q /\
+       (zlen (mant x) <= (prec x + 18) / 19 -> x' = x)).
+Proof. exact Gob_roundtrip. Qed.
+Print Assumptions C17_roundtrip.
+
+(* Decoding into a receiver z whose precision is not 0: z keeps its precision
+   and mode; if the bytes describe the finite value d (what a fresh Decimal
+   would decode to), z becomes d rounded once to prec z under z's mode, with
+   the accuracy of that rounding; a zero or an infinity keeps its sign and
+   becomes Exact (z's mantissa and exponent fields are left as they were). *)
+Theorem C17_receiver : forall z buf d,
+  Forall (fun b => 0 <= b < 256) buf -> buf <> [] -> zlen buf < 1073741824 ->
+  WF z -> prec z <> 0 ->
+  GobDecode dec_zero buf = GobOk d ->
+  exists z', GobDecode z buf = GobOk z' /\ prec z' = prec z /\ dmode z' = dmode z /\ WF z' /\
+    match dform d with
+    | Ffinite => result_spec (prec z) (dmode z) (neg d) (mag d) z'
+    | f => z' = mkDec (mant z) (exp z) (prec z) (dmode z) Exact f (neg d)
+    end.
+Proof. exact Gob_receiver. Qed.
+Print Assumptions C17_receiver.
+
+(* Decoding any byte string into any canonical receiver never panics, leaves
+   the receiver untouched when it reports an error, and otherwise yields a
+   canonical value.  The length bound (1 GiB) is only needed when the receiver
+   has a precision: SetPrec is then applied to the decoded mantissa, whose digit
+   count must fit the uint32 arithmetic of round. *)
+Theorem C17_total : forall z buf,
+  Forall (fun b => 0 <= b < 256) buf -> WF z -> (prec z = 0 \/ zlen buf < 1073741824) ->
+  GobDecode z buf <> GobCrash /\
+  (forall z', GobDecode z buf = GobErr z' -> z' = z) /\
+  (forall z', GobDecode z buf = GobOk z' -> WF z').
+Proof. exact Gob_total. Qed.
+Print Assumptions C17_total.
 
 Example C17_examples :
   let x := mkDec [1500000000000000000] 1 2 ToZero Below Ffinite true in
   GobEncode x = [1; 67; 0; 0; 0; 2; 0; 0; 0; 1; 20; 209; 18; 13; 123; 22; 0; 0] /\
   GobDecode dec_zero (GobEncode x) = GobOk x /\
   GobDecode dec_zero [1; 2; 3] = GobErr dec_zero.
+Proof. vm_compute. repeat split. Qed.
+
+(* round trip: a canonical value with a low zero word beyond its precision loses
+   only that word; an infinity and a negative exponent come back unchanged *)
+Example C17_roundtrip_example :
+  let x := mkDec [0; 1500000000000000000] (-7) 2 ToNearestAway Above Ffinite false in
+  let i := mkDec [] 0 5 ToPositiveInf Exact Finf true in
+  wf_b x = true /\ wf_b i = true /\
+  GobDecode dec_zero (GobEncode x) = GobOk (mkDec [1500000000000000000] (-7) 2 ToNearestAway Above Ffinite false) /\
+  GobDecode dec_zero (GobEncode i) = GobOk i.
+Proof. vm_compute. repeat split. Qed.
+
+(* receiver with precision 1 and mode ToZero: 0.15e1 (prec 2) is rounded to 0.1e1, Below;
+   with mode AwayFromZero to 0.2e1, Above; precision and mode of the receiver are kept *)
+Example C17_receiver_example :
+  let x := mkDec [1500000000000000000] 1 2 ToNearestEven Exact Ffinite false in
+  let z := mkDec [] 0 1 ToZero Exact Fzero false in
+  let z2 := mkDec [] 0 1 AwayFromZero Exact Fzero false in
+  wf_b z = true /\ prec z <> 0 /\ GobEncode x <> [] /\
+  GobDecode dec_zero (GobEncode x) = GobOk x /\
+  GobDecode z (GobEncode x) = GobOk (mkDec [1000000000000000000] 1 1 ToZero Below Ffinite false) /\
+  GobDecode z2 (GobEncode x) = GobOk (mkDec [2000000000000000000] 1 1 AwayFromZero Above Ffinite false).
+Proof. vm_compute. repeat split; discriminate. Qed.
+
+(* arbitrary bytes: a zero with precision 2^32-1 is accepted (and is canonical: MaxPrec = 2^32-1);
+   an unnormalised mantissa, a word >= 10^19, digits beyond the precision, an invalid
+   mode and a short buffer are rejected with the receiver untouched; a 3-byte
+   mantissa is accepted when it is a normalised one-word mantissa only, so here rejected *)
+Example C17_total_example :
+  let z := mkDec [1230000000000000000] 3 3 ToZero Exact Ffinite true in
+  wf_b z = true /\
+  (let z' := mkDec [] 0 MaxPrec ToNearestEven Below Fzero false in
+   GobDecode dec_zero [1; 0; 255; 255; 255; 255] = GobOk z' /\ wf_b z' = true) /\
+  GobDecode z [1; 2; 0; 0; 0; 5; 0; 0; 0; 1; 0; 0; 0; 0; 0; 0; 0; 1] = GobErr z /\
+  GobDecode z [1; 2; 0; 0; 0; 20; 0; 0; 0; 1; 255; 255; 255; 255; 255; 255; 255; 255] = GobErr z /\
+  GobDecode z [1; 2; 0; 0; 0; 1; 0; 0; 0; 1; 20; 209; 18; 13; 123; 22; 0; 0] = GobErr z /\
+  GobDecode z [1; 194; 0; 0; 0; 2] = GobErr z /\
+  GobDecode z [1; 2; 0; 0; 0; 2; 0; 0] = GobErr z /\
+  GobDecode z [1; 2; 0; 0; 0; 2; 0; 0; 0; 1; 1; 2; 3] = GobErr z /\
+  GobDecode z [1; 3; 0; 0; 0; 2; 255; 255; 255; 255; 20; 209; 18; 13; 123; 22; 0; 0] =
+    GobOk (mkDec [1500000000000000000] (-1) 3 ToZero Exact Ffinite true).
 Proof. vm_compute. repeat split. Qed.
